@@ -1173,8 +1173,10 @@ class TLSConnection(TLSRecordLayer):
                 AlertDescription.illegal_parameter,
                 "Server responded with unrequested NPN Extension"):
                 yield result
+        # TLS 1.3 key schedule always binds the transcript, no EMS extension
         if not serverHello.getExtension(ExtensionType.extended_master_secret)\
-            and settings.requireExtendedMasterSecret:
+            and settings.requireExtendedMasterSecret \
+            and real_version < (3, 4):
             for result in self._sendError(
                     AlertDescription.insufficient_security,
                     "Negotiation of Extended master Secret failed"):
